@@ -213,18 +213,26 @@ def minimise(z: Zygote, scenario: dict, cls: tuple, timeout: int,
     execs = 0
     steps = 0
     progress = True
+    tried = {core.jdump(scenario)}
+    viol = None
     while progress and execs < max_execs and time.monotonic() - t0 < max_wall:
         progress = False
-        cands = z.call({"cmd": "shrink", "scenario": scenario}).get("candidates", [])
+        cands = z.call({"cmd": "shrink", "scenario": scenario, "violation": viol}).get("candidates", [])
         for cand in cands:
             if execs >= max_execs or time.monotonic() - t0 > max_wall:
                 break
+            key = core.jdump(cand)
+            if key in tried:
+                continue
+            tried.add(key)
             res = z.call({"cmd": "exec", "scenario": cand, "timeout": timeout})
             execs += 1
             if "harness_error" in res:
                 continue
-            if has_class(res, cls):
+            vv = has_class(res, cls)
+            if vv:
                 scenario = cand
+                viol = vv
                 steps += 1
                 progress = True
                 break
@@ -355,6 +363,9 @@ def run_check(prop: str, tier: str) -> int:
             )
         replays = []
         timeout = m["timeout"][tier]
+        for cls, g in sorted(groups.items(), key=lambda kv: kv[1]["fl"]["i"]):
+            lines.append(f"  class clause={cls[0]} kind={cls[1]} records={g['count']} "
+                         f"first_i={g['fl']['i']} :: {g['v']['msg'][:160]}")
         for cls, g in list(sorted(groups.items(), key=lambda kv: kv[1]["fl"]["i"]))[:4]:
             fl, v = g["fl"], g["v"]
             scen, info = minimise(z0, fl["scenario"], cls, timeout)
